@@ -196,6 +196,16 @@ class Impl:
         from pose_format.numpy.pose_body import NumPyPoseBody
         from pose_format.pose import Pose
         data, conf = self.filled_data(case, fill)
+        # the array reaches the constructor as a caller may hold it: a plain ndarray, a masked array without a mask, or a masked
+        # array whose own mask covers only some of the zero-confidence points (the constructor ORs `confidence == 0` into it).
+        # The choice depends on the case only, so that both fillings of a case take the same route.
+        mode = (sum(case["conf"]) + len(case["data"])) % 3
+        if mode == 1:
+            data = ma.masked_array(data)
+        elif mode == 2 and data.ndim == 4 and data.shape[3] > 0:
+            zero = np.repeat((conf == 0)[..., None], data.shape[3], axis=-1)
+            keep = np.random.RandomState(len(case["data"]) * 31 + 7).random_sample(zero.shape) < 0.5
+            data = ma.masked_array(data, mask=zero & keep)
         return Pose(self.header(case), NumPyPoseBody(from_b64(case["fps"]), data, conf))
 
     def to_backend(self, pose, backend):
